@@ -135,3 +135,12 @@ impl Strain {
 fn apply_decay(value: f64, delta_time: f64, decay_base: f64) -> f64 {
     value * f64::powf(decay_base, delta_time / 1000.0)
 }
+
+#[cfg(rosu_pp_verif)]
+impl Strain {
+    /// Verification hook: the value `strain_value_at` returned for every
+    /// processed difficulty object.
+    pub fn verif_object_strains(&self) -> &[f64] {
+        &self.strain_skill_object_strains
+    }
+}
